@@ -150,6 +150,8 @@ type Req struct {
 	Body         []byte
 	Hijacked     bool
 	FirstWriteSeq int64
+	// WritesAfterReturn counts WriteHeader/Write calls made after the handler had returned
+	WritesAfterReturn int
 }
 
 type recWriter struct {
@@ -160,6 +162,9 @@ type recWriter struct {
 
 func (rw *recWriter) WriteHeader(code int) {
 	rw.w.mu.Lock()
+	if rw.req.ReturnSeq != 0 {
+		rw.req.WritesAfterReturn++
+	}
 	rw.req.WriteHeaders++
 	if rw.req.WriteHeaders == 1 {
 		rw.req.Status = code
@@ -172,6 +177,12 @@ func (rw *recWriter) WriteHeader(code int) {
 		// a slow connection: the scenario may keep this header write waiting
 		if ch := hold(snapshot, code); ch != nil {
 			<-ch
+			rw.w.mu.Lock()
+			if rw.req.ReturnSeq != 0 {
+				// the handler returned while this header write was still in progress
+				rw.req.WritesAfterReturn++
+			}
+			rw.w.mu.Unlock()
 		}
 	}
 	rw.ResponseWriter.WriteHeader(code)
@@ -180,6 +191,9 @@ func (rw *recWriter) WriteHeader(code int) {
 func (rw *recWriter) Write(b []byte) (int, error) {
 	seq := rw.w.Tap.Add(Event{Kind: "req:write", Sid: rw.req.Sid, Str: fmt.Sprintf("req %d %d bytes", rw.req.ID, len(b))})
 	rw.w.mu.Lock()
+	if rw.req.ReturnSeq != 0 {
+		rw.req.WritesAfterReturn++
+	}
 	rw.req.Writes++
 	if rw.req.FirstWriteSeq == 0 {
 		rw.req.FirstWriteSeq = seq
